@@ -96,6 +96,10 @@ def tucker_als(  # noqa: PLR0912, PLR0913, PLR0915
         raise ValueError(
             f"Rank must be a scalar or have one entry per mode ({N}) but got {rank}"
         )
+    if np.any(rank < 1) or np.any(rank > np.array(input_tensor.shape)):
+        raise ValueError(
+            f"Ranks must lie between 1 and the extent of their mode but got {rank}"
+        )
 
     # Set up dimorder if not specified
     if dimorder is None:
